@@ -92,8 +92,8 @@ PROPS = {
     },
     "C08": {
         "title": "RESP encoding and decoding round-trip, independent of stream chunking",
-        "rules": [k3.s4_resp_tag_tables, k4.v3_read_frame_eof, k4.v2_parse_frame, k4.kdec_decimal_buffer, k4.v6_write_frame_flushes, k9.s18_encoder_sequence, k9.v8_who_says_incomplete],
-        "decides": "encoder/parser/checker tag tables mutually inverse incl. the Null literal; EOF inside a frame ⇒ error, at a boundary ⇒ clean end; Incomplete ⇒ read more; consumed = checked length, buffer never replaced; decimal scratch buffer ≥ 20 bytes; frames flushed; the stream is read only after the buffer was tried; Ok(None) only on Incomplete; no partial-write API; per frame kind the encoder emits type byte, text/decimal, CRLF, payload, CRLF in the RESP order, the bulk length is the payload's own length and the array count the number of items written; write_decimal sends exactly the formatted bytes; Incomplete is constructed only at the reviewed byte-shortage tests of the reader helpers — check declares nothing incomplete on its own",
+        "rules": [k3.s4_resp_tag_tables, k4.v3_read_frame_eof, k4.v2_parse_frame, k4.kdec_decimal_buffer, k4.v6_write_frame_flushes, k9.s18_encoder_sequence, k9.v8_who_says_incomplete, k9.s17_sign_discipline],
+        "decides": "encoder/parser/checker tag tables mutually inverse incl. the Null literal; EOF inside a frame ⇒ error, at a boundary ⇒ clean end; Incomplete ⇒ read more; consumed = checked length, buffer never replaced; decimal scratch buffer ≥ 20 bytes; frames flushed; the stream is read only after the buffer was tried; Ok(None) only on Incomplete; no partial-write API; per frame kind the encoder emits type byte, text/decimal, CRLF, payload, CRLF in the RESP order, the bulk length is the payload's own length and the array count the number of items written; write_decimal sends exactly the formatted bytes; Incomplete is constructed only at the reviewed byte-shortage tests of the reader helpers — check declares nothing incomplete on its own; negative numbers are accumulated downwards (so that i64::MIN, which the encoder can write, is read back)",
         "not_decided": "round-trip equality and 'every strict prefix is incomplete' as universally quantified statements over encodings",
     },
     "C09": {
